@@ -3,6 +3,8 @@
 given directory) applied to a scratch copy of /repo; any obligation that is not discharged and
 is not reported on the unchanged tree is a FALSE ALARM.  usage: refac_eval.py <dir> [--props ..]"""
 import sys, os, json, subprocess, shutil
+GC = os.environ.get('GROGCHECK', '/verif/bin/grogcheck')
+BASE = '/tmp/seed/base_verif' + ('_dev' if GC.endswith('.dev') else '')
 d = sys.argv[1].rstrip('/')
 props = None
 for i, a in enumerate(sys.argv):
@@ -21,16 +23,16 @@ try:
         except Exception: return {'<no evidence>': 'x'}
         return {o['key']: o.get('witness', '')[:220] for o in ev['coverage'].get('samples', []) if o['status'] != 'discharged' and not o.get('known_finding')}
     os.makedirs(scratch + '_verif/evidence', exist_ok=True)
-    os.makedirs('/tmp/seed/base_verif/evidence', exist_ok=True)
+    os.makedirs(BASE + '/evidence', exist_ok=True)
     shutil.copy('/verif/known_findings.json', scratch + '_verif/known_findings.json')
-    shutil.copy('/verif/known_findings.json', '/tmp/seed/base_verif/known_findings.json')
+    shutil.copy('/verif/known_findings.json', BASE + '/known_findings.json')
     ids = props or [c['property_id'] for c in json.load(open('/verif/MANIFEST.json'))['checks']]
     alarms = {}
     for i in ids:
-        basef = '/tmp/seed/base_verif/evidence/%s.json' % i
-        if not os.path.exists(basef) or os.path.getmtime(basef) < os.path.getmtime('/verif/bin/grogcheck'):
-            subprocess.run(['/verif/bin/grogcheck', 'check', i, '-repo', '/repo', '-verif', '/tmp/seed/base_verif'], env=env, capture_output=True, text=True)
-        subprocess.run(['/verif/bin/grogcheck', 'check', i, '-repo', scratch, '-verif', scratch + '_verif'], env=env, capture_output=True, text=True)
+        basef = BASE + '/evidence/%s.json' % i
+        if not os.path.exists(basef) or os.path.getmtime(basef) < os.path.getmtime(GC):
+            subprocess.run([GC, 'check', i, '-repo', '/repo', '-verif', BASE + ''], env=env, capture_output=True, text=True)
+        subprocess.run([GC, 'check', i, '-repo', scratch, '-verif', scratch + '_verif'], env=env, capture_output=True, text=True)
         b = bad(basef); n = bad(scratch + '_verif/evidence/%s.json' % i)
         new = {k: v for k, v in n.items() if k not in b}
         if new: alarms[i] = new
